@@ -217,17 +217,28 @@ def injectOne (w : World) (t : TapeW) (l : Listener) (src : Str) : FileResult :=
           | .error _ => .overflow  -- unreachable
           | .ok (line, l3) => .ok t3 l3 line
 
-def injectLoop (w : World) : TapeW → Listener → List Str → List Str → Status × List Str × Option TapeW
+/-- the two refusals at the top of the loop body: a source that is the archive itself (writing the archive
+    would destroy it), a source whose name is not ascii (a leader block holds ascii only) -/
+def refusal (archive src : Str) : Option PyErr :=
+  let r := classifyRaw src
+  if samePath r.2 archive then some (.valueError "source.is.the.archive")
+  else if (r.1.name ++ r.1.ext).any (· ≥ 128) then some (.valueError "not.an.ascii.name")
+  else none
+
+def injectLoop (w : World) (archive : Str) : TapeW → Listener → List Str → List Str → Status × List Str × Option TapeW
   | t, _, out, [] => (.ret 0, out, some t)
   | t, l, out, src :: rest =>
-    match injectOne w t l src with
-    | .overflow => (.ret 1, out ++ [str "Too much data, abort creation."], none)
-    | .missing => (.raised (.osError "FileNotFoundError"), out, none)
-    | .ok t' l' line => injectLoop w t' l' (out ++ [line]) rest
+    match refusal archive src with
+    | some e => (.raised e, out, none)
+    | none =>
+      match injectOne w t l src with
+      | .overflow => (.ret 1, out ++ [str "Too much data, abort creation."], none)
+      | .missing => (.raised (.osError "FileNotFoundError"), out, none)
+      | .ok t' l' line => injectLoop w archive t' l' (out ++ [line]) rest
 
 /-- `TapeImageContentInjector.perform`: report, status, and the single archive write -/
 def inject (w : World) (verbose : Bool) (archive : Str) (srcs : List Str) : Outcome :=
-  match injectLoop w blank { verbose := verbose } [] srcs with
+  match injectLoop w archive blank { verbose := verbose } [] srcs with
   | (st, out, some t) => { status := st, out := out, writes := [(archive, t.buf)] }
   | (st, out, none) => { status := st, out := out }
 
